@@ -30,9 +30,9 @@ CHECKS = {
     "rf24.py": ["C03", "C10", "C01", "C02", "C08", "C09", "C07"],
     "rf24_lite.py": ["C20"],
     "fake_ble.py": ["C18", "C19", "C09"],
-    "network/structs.py": ["C11", "C12", "C06", "C15", "C05"],
+    "network/structs.py": ["C11", "C12", "C06", "C15", "C05", "C13", "C14", "C07", "C17"],
     "network/mixins.py": ["C04", "C07", "C14", "C13", "C05", "C15", "C11", "C17", "C09"],
-    "rf24_network.py": ["C11", "C05", "C13", "C14", "C15"],
+    "rf24_network.py": ["C11", "C05", "C13", "C14", "C15", "C07", "C09"],
     "rf24_mesh.py": ["C16", "C17", "C15"],
     "network/constants.py": ["C11", "C15", "C13", "C14", "C17", "C05"],
     "wrapper/cpy_spidev.py": ["C01", "C03"],
